@@ -193,6 +193,12 @@ def run(ctx):
     for L in range(0, Lv + 1):
         ch += [(L, lo, hi, ns, False) for lo, hi in core.ranges(4 ** L, 2048)]
     ctx.pmap(_w_values, ch)
+    # every check length n >= 1: also far beyond what 64-bit arithmetic holds (4^(n-1) for n >= 33)
+    ch = []
+    for L in range(0, 6):
+        ch += [(L, lo, hi, (8, 16, 31, 32, 33, 34, 40, 64, 100), False) for lo, hi in core.ranges(4 ** L, 256)]
+    ch += [(12, 4 ** 11 + i * 997, 4 ** 11 + i * 997 + 3, (33, 64), False) for i in range(40)]
+    ctx.pmap(_w_values, ch)
     Le = 7 if ctx.quick else 8
     ctx.pmap(_w_edits, [(Le, (1, 2, 4), i, 16) for i in range(16)])
     strands = list(U.all_strings(5 if ctx.quick else 6))
@@ -206,7 +212,7 @@ def run(ctx):
     ctx.cov['vt_automaton_states'] = total_states
     longs = [(h, L) for L in ([1000, 10000] if ctx.quick else [1000, 10000, 100000]) for h in ('ACGT', 'TGCA', 'AT', 'CAGT')]
     ctx.pmap(_w_long, longs)
-    ctx.bounds = {'all_strands_up_to': Lv, 'check_lengths': list(ns), 'edits_on_strands_up_to': Le,
+    ctx.bounds = {'all_strands_up_to': Lv, 'check_lengths': list(ns), 'long_check_lengths_on_strands_up_to_5': [8, 16, 31, 32, 33, 34, 40, 64, 100], 'edits_on_strands_up_to': Le,
                   'decode_rejection_strands_up_to': 5 if ctx.quick else 6, 'automaton_check_lengths': [1, 2, 3],
                   'long_strands': [L for _, L in longs[::4]]}
     ctx.rule = ('value: one case = (strand, check length) compared with the VT definition; edit: one case = (strand, single '
